@@ -121,6 +121,26 @@ def histories(desc):
     out.append(('direct', w3.doc.wsdl11.get_interface_document()))
     wsdl(w3)
     out.append(('direct, after serving', w3.doc.wsdl11.get_interface_document()))
+    # the same Wsdl11 object builds twice (a build starts from nothing), and a transport whose first build failed late
+    w4, _, _ = build(desc)
+    w4.doc.wsdl11.build_interface_document('http://x/')
+    w4.doc.wsdl11.build_interface_document('http://x/')
+    out.append(('built twice', w4.doc.wsdl11.get_interface_document()))
+    w5, _, _ = build(desc)
+    armed = [True]
+
+    def boom(doc):
+        if armed[0]:
+            armed[0] = False
+            raise RuntimeError('injected: wsdl_document_built listener fails once')
+    w5.doc.wsdl11.event_manager.add_listener('wsdl_document_built', boom)
+    import logging
+    logging.disable(logging.CRITICAL)
+    try:
+        wsdl(w5)
+    finally:
+        logging.disable(logging.NOTSET)
+    out.append(('retry after a failed build', wsdl(w5)))
     return out
 
 
